@@ -265,11 +265,10 @@ def evaluate(case):
     if e2e:
         out.add(*e2e)
     # (3) the same provider object serving two attributes with different name separators
-    if len(case["e2e_name"]) >= 2:
-        out.cls("shared_provider_two_separators")
-        e2s = end_to_end_shared(case, expr, src)
-        if e2s:
-            out.add(*e2s)
+    out.cls("shared_provider_two_separators")
+    e2s = end_to_end_shared(case, expr, src)
+    if e2s:
+        out.add(*e2s)
     return out
 
 
@@ -349,6 +348,19 @@ def end_to_end_shared(case, expr, src):
     from textx.scoping.rrel import create_rrel_scope_provider
 
     names = case["e2e_name"]
+    # whenever the first top-level package holds a class, the scenario runs with the plain expression
+    # 'packages.classes' and that class's two-part name: both references then resolve by construction, and the check
+    # is about the provider object's state only (the generated expression has its own end-to-end run above)
+    _, root0 = M.build_class_model(case["model"])
+    pk = root0.order[0] if root0.order else None
+    cl0 = next((n for n in pk.order if n.kind == "Cls"), None) if pk is not None and pk.kind == "Package" else None
+    if cl0 is not None:
+        names = [pk.name, cl0.name]
+        src = "packages.classes"
+        nav = lambda n: {"k": "nav", "name": n, "consume": True, "fixed": None, "star": False}  # noqa: E731
+        expr = {"flags": "", "paths": [{"lead": None, "elems": [nav("packages"), nav("classes")]}]}
+    elif len(names) < 2:
+        return None
     order = [".", "/"] if case["split"] == "." else ["/", "."]
     body = "(packages+=Package | classes+=Cls | probes+=Probe | probes2+=Probe2)*"
     g = M.GRAMMAR.replace("(packages+=Package | classes+=Cls)*", body)
